@@ -71,8 +71,10 @@ pub fn check(v: &View, vd: &mut Verdict) {
             }
         }
         // weak handles upgrade
+        // (also after the actor has terminated: what a weak handle upgrades to is the handle, and strong
+        // handles of the same kind are still around - only the harness' own teardown ends this)
         for o in v.client_ops().filter(|o| o.actor == Some(a) && o.what == OpWhat::Upgrade && o.end.is_some()) {
-            if o.begin >= limit {
+            if o.begin >= v.phase(Phase::Teardown) {
                 continue;
             }
             let ks = kinds_at(a, o.begin);
